@@ -21,3 +21,5 @@ for _p in ("C19", "C20"):
     CHECKS[_p] = checks_tuner.run
 import checks_uci
 CHECKS["C13"] = checks_uci.c13
+import checks_fen
+CHECKS["C11"] = checks_fen.c11
